@@ -13,8 +13,18 @@ def run(tier, v, wd, replay=None):
     n = 3000 if tier == "quick" else 40000
     r = vlib.tlc(wd, "Health", "Health_gen.cfg", emit_to=infile, simulate={"num": n}, depth=14, workers=4, timeout=1500, max_emit=n)
     v.add_tlc(r)
+    # exhaustive: every history of 4 (thorough: 5) events over 2 nodes x {tcp4, data4} that ends with a node coming back
+    # into a domain in which no other node is alive (the connectivity bit must be set again, whatever the latencies)
+    part = infile + ".bfs"
+    r = vlib.tlc(wd, "Health", "Health_bfs.cfg" if tier == "quick" else "Health_bfs5.cfg", emit_to=part, timeout=1500, workers=8)
+    v.add_tlc(r)
+    if r.violated:
+        raise vlib.Infra("Health.tla violates %s in the model (bfs)" % r.violated)
+    with open(infile, "a") as out:
+        out.write(open(part).read())
+    os.remove(part)
     repo = vlib.scratch_repo(wd, "stub")
-    run_vectors(v, wd, repo, "./component/outbound/dialer/", "TestVerifC16", infile, timeout=900)
+    run_vectors(v, wd, repo, "./component/outbound/dialer/", "TestVerifC16", infile, timeout=1500)
     # reload hand-over: the last known state is inherited and every type keeps one selectable node (GroupSelect.tla with WithReload)
     r = vlib.tlc(wd, "GroupSelect", "GroupSelect_reload_mc.cfg", timeout=1500)
     v.add_tlc(r)
